@@ -71,7 +71,11 @@ def run_impl(kind, version, extra_pairs, local, config, outcome, hint):
         orig = srv._use_keep_alive_hint
         srv._use_keep_alive_hint = lambda x=None: (hints.append(x), orig(x))[1]
         line = wire.encode_line(b'10', meth, ('WInit', pairs)).decode('ascii')
-        fixture.feed(srv, line)
+        obs['crashed'] = None
+        try:
+            fixture.feed(srv, line)
+        except Exception as ex:          # nothing but the handled protocol error may come out of on_received_request
+            obs['crashed'] = repr(ex)
         msgs = fixture.drain(srv)
         obs['line'] = line
         obs['init_calls'] = [c for c in ad.calls if c[0] == 'initialize']
@@ -83,7 +87,10 @@ def run_impl(kind, version, extra_pairs, local, config, outcome, hint):
         obs['handler'] = len(h.ex)
         # observe the flag through a real CLOSE request
         closed0 = env.sock.closed
-        fixture.feed(srv, '0|CLOSE\r\n')
+        try:
+            fixture.feed(srv, '0|CLOSE\r\n')
+        except Exception as ex:
+            obs['crashed'] = obs['crashed'] or repr(ex)
         obs['closed_by_request'] = env.sock.closed > closed0
         obs['handler_after_close'] = len(h.ex)
     return obs, pairs
@@ -138,6 +145,10 @@ def run(ctx, res):
         case = {'kind': kind, 'version': v, 'outcome': oc, 'proxy_pairs': pairs, 'local': local, 'config': config, 'hint': hint, 'line': obs['line']}
         res.nontrivial.add((kind, v, oc, len(extra), local is not None, hint is not None))
         res.count('%s:%s' % (kind, 'absent' if v is None else 'null' if v == '#' else 'given'))
+        if obs.get('crashed'):
+            res.oracle_violations.append({'case': case, 'detail': 'an exception escaped the request dispatcher while handling the init request: %s' % obs['crashed'],
+                                          'key': {'kind': 'init_crash'}})
+            continue
         # ---- implementation observables in the model's vocabulary
         ic = obs['init_calls']
         if len(ic) > 1:
